@@ -796,6 +796,7 @@ static void chunkqueue_dup_file_chunk_fd (chunk * const restrict d, const chunk 
 
 __attribute_noinline__
 static void chunkqueue_steal_partial_file_chunk(chunkqueue * const restrict dest, const chunk * const restrict c, const off_t len) {
+    if (len <= 0) return; /*(nothing is appended; dest->last is not a new chunk)*/
     chunkqueue_append_file(dest, c->mem, c->offset, len);
     chunkqueue_dup_file_chunk_fd(dest->last, c);
 }
